@@ -112,7 +112,7 @@ def pNet : P Net := do
   pure ⟨c, f, unv, fb⟩
 
 def pClasses : P Classes :=
-  pList (do let k ← pNat; let c0 ← pBool; let h ← pNat; pure (k, (⟨c0, h⟩ : ClassDef)))
+  pList (do let k ← pNat; let c0 ← pBool; let h ← pNat; let bad ← pBool; pure (k, (⟨c0, h, bad⟩ : ClassDef)))
 
 def pBundle : P Bundle := do
   let b ← pBlock
@@ -265,6 +265,7 @@ def migrateErrStr : MigrateErr → String
 def casmErrStr : CasmErr → String
   | .classMissing => "casm-class-missing" | .notSierra => "casm-not-sierra" | .metaMissing => "casm-meta-missing"
   | .migrate e => "casm-" ++ migrateErrStr e
+  | .compiledHash => "casm-compiled-malformed"
 
 def rejectSStr : RejectS → String
   | .version => "version" | .number => "number" | .parent => "parent" | .io => "io"
@@ -414,16 +415,20 @@ def step (s : DState) (line : String) : DState × String :=
     -- found in the code under test (does it require the definition of a declared class?). State: `curRoot` is the commitment of the real node's
     -- state under the block's version, `applyRes` the commitment after applying the diff (~ = the
     -- application fails); both are measured on a scratch copy of the real node, not taken from the bundle.
-    match parseAll (do let chk ← pBool; let nb ← pBool; let B ← pBundle; let cid ← pNat; let cur ← pFelt; let ap ← pOpt pFelt
-                       let v2 ← pV2; pure (chk, nb, B, cid, cur, ap, v2)) rest with
-    | some (chk, nb, B, cid, cur, ap, v2) =>
+    match parseAll (do let chk ← pBool; let guarded ← pBool; let nb ← pBool; let B ← pBundle; let cid ← pNat; let cur ← pFelt; let ap ← pOpt pFelt
+                       let v2 ← pV2; pure (chk, guarded, nb, B, cid, cur, ap, v2)) rest with
+    | some (chk, guarded, nb, B, cid, cur, ap, v2) =>
       let sem : StateSem Term := ⟨fun st _ => st, fun _ _ _ _ => ap⟩
       let v2of : Nat → Nat := fun c => match v2.find? (fun p => p.1 == c) with | some p => p.2 | none => 0
       let n : NodeS Term := ⟨s.db, ⟨none, cur, []⟩⟩
       let errs := String.intercalate "," ((casmErrorsWith chk s.db B.block.header B.su.diff B.classes).map casmErrStr)
       (match storeCallbackWith chk nb sem n B cid v2of with
        | .ok (ws, _) => ({ db := s.db.applyBatch ws }, "ok | " ++ errs ++ " | " ++ batchStr ws)
-       | .error e => (s, rejectSStr e ++ " | " ++ errs ++ " | -"))
+       | .error e =>
+         -- the V2 hash of a compiled class that cannot be computed: a panic as the code is (`guarded` = the variant of
+         -- storeCasmHashMetadataV1 the harness found in the code under test), an error with the repair
+         let v := if e == .casm .compiledHash && !guarded then "panic-casm-hash" else rejectSStr e
+         (s, v ++ " | " ++ errs ++ " | -"))
     | none => (s, "bad-op")
   | "node-revert" :: [] =>
     (match getChainHeight s.db with
